@@ -191,6 +191,10 @@ type accAns struct {
 	AloneCode int `json:"alone_code"`
 	// the other entry points of the gate, asked about the remote address alone: Target.AccessDeniedTCP (TCP / SNI
 	// proxies, on a connection) and Target.AccessDeniedAddr (gRPC), on the shared target and on a fresh one
+	// the same request on a route that is NOT a redirect (Lookup hands out the shared target itself, not the
+	// per-request copy of a redirect target): Table.Lookup + Target.AccessDeniedHTTP, shared table and fresh table
+	Direct      bool `json:"direct"`
+	AloneDirect bool `json:"alone_direct"`
 	TCPDenied   bool `json:"tcp_denied"`
 	AddrDenied  bool `json:"addr_denied"`
 	AloneDenied bool `json:"alone_denied"`
@@ -267,19 +271,31 @@ func accRun(raw json.RawMessage) (interface{}, error) {
 	if err != nil {
 		return nil, err
 	}
-	def := `route add acc /acc https://to.example/ok opts "redirect=301 ` + opts + `"`
-	mk := func() (http.Handler, *route.Target, error) {
+	def := `route add acc /acc https://to.example/ok opts "redirect=301 ` + opts + `"` + "\n" +
+		`route add plain /plain http://up.example:80/ opts "` + opts + `"`
+	type side struct {
+		h      http.Handler
+		t      route.Table
+		target *route.Target
+	}
+	direct := func(s side, q accReq) bool {
+		req := q.build("acc.example", "/plain")
+		tg := s.t.Lookup(req, "", route.Picker["rr"], route.Matcher["prefix"], route.NewGlobCache(4), true)
+		return tg == nil || tg.AccessDeniedHTTP(req)
+	}
+	mk0 := func() (side, error) {
 		t, err := route.VerifNewTable(def)
 		if err != nil {
-			return nil, nil, err
+			return side{}, err
 		}
-		rt := route.VerifC06Route(t, "", "/acc")
-		if rt == nil || len(rt.Targets) != 1 {
-			return nil, nil, errors.New("route was not added")
+		rt := route.VerifC06Route(t, "", "/plain")
+		if rt == nil || len(rt.Targets) != 1 || route.VerifC06Route(t, "", "/acc") == nil {
+			return side{}, errors.New("route was not added")
 		}
-		return newProxy(func() route.Table { return t }, route.NewGlobCache(4), true), rt.Targets[0], nil
+		return side{newProxy(func() route.Table { return t }, route.NewGlobCache(4), true), t, rt.Targets[0]}, nil
 	}
-	shared, sharedTarget, err := mk()
+	sharedSide, err := mk0()
+	shared, sharedTarget := sharedSide.h, sharedSide.target
 	if err != nil {
 		return nil, err
 	}
@@ -292,12 +308,15 @@ func accRun(raw json.RawMessage) (interface{}, error) {
 		rec := httptest.NewRecorder()
 		shared.ServeHTTP(rec, q.build("acc.example", "/acc"))
 		a.Code = rec.Code
+		a.Direct = direct(sharedSide, q)
 		a.TCPDenied = sharedTarget.AccessDeniedTCP(fakeConn{ra: q.tcpAddr()})
 		a.AddrDenied = sharedTarget.AccessDeniedAddr(q.tcpAddr())
-		alone, aloneTarget, err := mk()
+		aloneSide, err := mk0()
 		if err != nil {
 			return nil, err
 		}
+		alone, aloneTarget := aloneSide.h, aloneSide.target
+		a.AloneDirect = direct(aloneSide, q)
 		rec = httptest.NewRecorder()
 		alone.ServeHTTP(rec, q.build("acc.example", "/acc"))
 		a.AloneCode = rec.Code
@@ -335,6 +354,8 @@ func accStressTableText() string {
 	for _, r := range accStressRoutes {
 		o, _ := r.rules.opts()
 		b.WriteString("route add " + r.name + " /" + r.name + " https://to.example/" + r.name + ` opts "redirect=301 ` + o + `"` + "\n")
+		// the twin that is not a redirect: Lookup hands out the shared target itself
+		b.WriteString("route add " + r.name + "-p /" + r.name + "-p http://up-" + r.name + `:80/ opts "` + o + `"` + "\n")
 	}
 	return b.String()
 }
